@@ -707,6 +707,7 @@ namespace {
         unsigned long long seed = 0;
         std::vector<std::string> search;
         bool echo = true, analyseTwice = false, astdump = false;
+        int shot0 = 0;  // index of the first shot (so that a fresh process can reproduce shot k of a multi-shot run)
         for (size_t i = 0; i < args.size(); ++i) {
             const std::string& a = args[i];
             auto next = [&]() -> std::string { return i + 1 < args.size() ? args[++i] : ""; };
@@ -726,6 +727,8 @@ namespace {
                 search.push_back(next());
             else if (a == "--echo")
                 echo = next() != "0";
+            else if (a == "--shot0")
+                shot0 = std::atoi(next().c_str());
             else if (a == "--analyse-twice")
                 analyseTwice = true;
             else if (a == "--astdump")
@@ -758,7 +761,7 @@ namespace {
         for (int s = 0; s < shots; ++s) {
             if (haveSeed)
                 QasmSimulator::verifSeedRng(seed * 0x9E3779B97F4A7C15ULL +
-                                            static_cast<unsigned long long>(s) * 0xBF58476D1CE4E5B9ULL +
+                                            static_cast<unsigned long long>(s + shot0) * 0xBF58476D1CE4E5B9ULL +
                                             0x94D049BB133111EBULL);
             std::ostringstream capOut, capErr, rec;
             auto* oldOut = std::cout.rdbuf(capOut.rdbuf());
